@@ -23,7 +23,7 @@ def _bounded_c14(eng, tier, seed):
     return r
 
 
-EXTRA_CHECKS = [_bounded_c14]
+EXTRA_CHECKS = [_bounded_c14, _c._no_hidden_state]  # no state shared between the payloads of nested delimited objects
 NOT_COVERED = _c.NOT_COVERED_C14
 EXPLANATION = _c.EXPLANATION_C14
 ASSUMPTIONS = _c.ASSUMPTIONS
